@@ -75,6 +75,7 @@ OBJECT object END_GROUP End_Object BEGIN_OBJECT begin_group inf nan Infinity -in
 2001-12-31T23:59:60 '' "" 'a' "a" 'a" "a' ' " a'b a"b 'a'b' N/A a.b a:b a_b ^a a+b
 x- -x a,b a;b a=b (a) {a} <a> a#b a&b a~b a|b a!b a%b [a] /* */ a/*b // é µ ٣ １２
 """.split()
+CURATED += ["foo*/", "/*x", "a*/b", "x/*", "*/", "a*b", "a/b"]
 CURATED += ["", " ", "a b", " a", "a ", "\t", "a\nb", "\xa0", "1 ", " 1"]
 # the longest forms each dialect admits (and one character more)
 CURATED += ["2001-01-01T12:00:00.123456Z", "2001-001T12:00:00.123456Z",
